@@ -223,3 +223,136 @@ func init() {
 		return sr
 	}
 }
+
+// ---------- C01: sources of nondeterminism ----------
+
+// consensusFunc: production functions that run as part of block execution (modules, ante, proposal handling).
+// The price daemon, CLI and node start-up code are excluded.
+func consensusFunc(key string) bool {
+	if !productionFunc(key) {
+		return false
+	}
+	return strings.HasPrefix(key, "x/") || strings.HasPrefix(key, "app.") || strings.HasPrefix(key, "lib.") || strings.HasPrefix(key, "utils.") || strings.HasPrefix(key, "types.")
+}
+
+func instrSweep(p *Prog, name, what string, sel func(fn *ssa.Function, in ssa.Instruction) (string, bool), expected map[string]string) *SweepResult {
+	sr := &SweepResult{Name: name}
+	seen := map[string]bool{}
+	for _, k := range p.sortedFuncKeys() {
+		if !consensusFunc(k) {
+			continue
+		}
+		fn := p.Funcs[k]
+		for _, b := range fn.Blocks {
+			for _, in := range b.Instrs {
+				if id, ok := sel(fn, in); ok {
+					seen[ownerKey(fn)+" -> "+id] = true
+				}
+			}
+		}
+	}
+	var ids []string
+	for id := range seen {
+		ids = append(ids, id)
+	}
+	sort.Strings(ids)
+	for _, id := range ids {
+		doc, ok := expected[id]
+		sr.Obls = append(sr.Obls, structObl(fmt.Sprintf("sweep.%s#site(%s)", name, id), "frame.sweep", ok,
+			fmt.Sprintf("undocumented %s: %s (documented sites are listed in tools/govc/sweeps_expected.go)", what, id)))
+		if ok {
+			sr.Sites = append(sr.Sites, id+"  ["+doc+"]")
+		} else {
+			sr.Sites = append(sr.Sites, id+"  [UNDOCUMENTED]")
+		}
+	}
+	sr.Explanation = fmt.Sprintf("%d sites of '%s' in consensus code; each must be on the documented list with its order-independence argument", len(ids), what)
+	return sr
+}
+
+func init() {
+	sweeps["map_ranges"] = func(p *Prog) *SweepResult {
+		return instrSweep(p, "map_ranges", "range over a Go map", func(fn *ssa.Function, in ssa.Instruction) (string, bool) {
+			r, ok := in.(*ssa.Range)
+			if !ok {
+				return "", false
+			}
+			if _, isMap := types.Unalias(r.X.Type()).Underlying().(*types.Map); !isMap {
+				return "", false
+			}
+			return "range " + typeShort(r.X.Type()), true
+		}, expectedMapRanges)
+	}
+	sweeps["unstable_sorts"] = func(p *Prog) *SweepResult {
+		return siteSweepFiltered(p, "unstable_sorts", "unstable sort", func(cs callSite) (string, bool) {
+			if cs.callee == "sort.Slice" || cs.callee == "sort.Sort" || cs.callee == "sort.Strings" || cs.callee == "slices.SortFunc" {
+				return cs.callee, true
+			}
+			return "", false
+		}, expectedUnstableSorts)
+	}
+	sweeps["forbidden_sources"] = func(p *Prog) *SweepResult {
+		return siteSweepFiltered(p, "forbidden_sources", "wall clock / randomness / environment / configuration access", func(cs callSite) (string, bool) {
+			c := cs.callee
+			switch {
+			case c == "time.Now":
+				// a wall-clock value that only flows into telemetry is harmless
+				if v, ok := cs.instr.(ssa.Value); ok && v.Referrers() != nil {
+					onlyTelemetry := true
+					for _, r := range *v.Referrers() {
+						ok2 := false
+						switch x := r.(type) {
+						case *ssa.Defer:
+							if cal := x.Call.StaticCallee(); cal != nil && isDropped(cal.String()) {
+								ok2 = true
+							}
+						case *ssa.Call:
+							if cal := x.Call.StaticCallee(); cal != nil && isDropped(cal.String()) {
+								ok2 = true
+							}
+						case *ssa.DebugRef:
+							ok2 = true
+						}
+						if !ok2 {
+							onlyTelemetry = false
+						}
+					}
+					if onlyTelemetry {
+						return "time.Now[telemetry-only]", true
+					}
+				}
+				return "time.Now[value used]", true
+			case c == "time.Since" || strings.HasPrefix(c, "math/rand.") || strings.HasPrefix(c, "(*math/rand.") ||
+				strings.HasPrefix(c, "crypto/rand.") || strings.HasPrefix(c, "os.Getenv") || strings.HasPrefix(c, "os.ReadFile") || strings.HasPrefix(c, "os.Open") ||
+				strings.HasPrefix(c, "github.com/spf13/viper.") || strings.HasPrefix(c, "(*github.com/spf13/viper.") || strings.HasPrefix(c, "runtime.NumGoroutine") || strings.HasPrefix(c, "os.Hostname"):
+				return c, true
+			}
+			return "", false
+		}, expectedForbiddenSources)
+	}
+	sweeps["goroutines"] = func(p *Prog) *SweepResult {
+		return instrSweep(p, "goroutines", "goroutine start / channel select", func(fn *ssa.Function, in ssa.Instruction) (string, bool) {
+			switch in.(type) {
+			case *ssa.Go:
+				return "go statement", true
+			case *ssa.Select:
+				return "select statement", true
+			}
+			return "", false
+		}, expectedGoroutines)
+	}
+}
+
+func typeShort(t types.Type) string {
+	return types.TypeString(t, func(p *types.Package) string { return p.Name() })
+}
+
+// siteSweepFiltered: like siteSweep but restricted to consensus code.
+func siteSweepFiltered(p *Prog, name, what string, sel func(cs callSite) (string, bool), expected map[string]string) *SweepResult {
+	return siteSweep(p, name, what, func(cs callSite) (string, bool) {
+		if !consensusFunc(cs.key) {
+			return "", false
+		}
+		return sel(cs)
+	}, expected)
+}
